@@ -132,7 +132,7 @@ def run(r):
     if not r.harness(["c14", "c02"]):
         return
     r.proofs()
-    a = naming_tie(r, 500 if quick else 8000)
+    a = naming_tie(r, 500 if quick else 6000)
     b = c02.exec_tie(r, 400 if quick else 6000)
 
     # ---- privacy and rebinding: compile outcomes and results against the generator's expectations
@@ -147,7 +147,7 @@ def run(r):
         r.sample(x)
 
     # ---- search: P and P' on the real interpreter
-    m = 2500 if quick else 60000
+    m = 2500 if quick else 40000
     if r.broken:
         m *= 4
     rc, out, err = run_bin("c14", ["search", m], seed=r.seed, timeout=3000)
